@@ -54,6 +54,13 @@ CHECKS = {
              'decimals at every 2^k+-2, nesting depth 0..8, multi-argument bracket groups, and random sequences of 1..40 tokens; the output must equal the bytes the reference grammar prescribes, decode back to the same operation sequence and contain only minimal pushes.',
         note='trusted: ref/asm.py (the grammar as the property states it: digit-only = decimal, hex literal = minimal-form push of exactly those bytes, bracket = push of the compiled body)',
         ref='5 C07'),
+    'C08': dict(
+        technique='runtime monitoring: reference-model monitor over stdout/stderr/exit status of the real btcdeb binary under pty/pipe combinations, plus paired runs across quiet/debug settings (ASan+UBSan build)',
+        text='Exploration: generated scripts (incl. ones failing through C++ exceptions) and signature contexts are run by the real binary in each non-terminal stdin/stdout combination, script on stdin or argv, three times with different '
+             '--quiet / --debug / DEBUG_* settings; stdout must be exactly the reference final stack (hex, bottom to top) with exit 0, or a script error on stderr with exit 1; never a signal or sanitizer report; identical results across option settings; '
+             '--verbose refused; interactive stepping (scripted REPL) reaches the same final stack.',
+        note='trusted: ref/script.py (C01); pty handling in vf/proc.py; scripts > 480 bytes only via argv',
+        ref='5 C08'),
     'C10': dict(
         technique='runtime monitoring: lock-step reference-model monitor over Instance::step() traces of boundary scripts (ASan+UBSan build)',
         text='Exploration over a deterministic boundary matrix: for each consensus limit (520-byte push, 1000 stack+altstack items, 201 counted ops incl. multisig key counts, 20 multisig keys, 10,000-byte scripts, 4/5-byte numeric operands) '
